@@ -608,6 +608,12 @@ func c04r7(r *R) {
 				continue
 			}
 			src := refArgs(c.Common())[1]
+			// each alias appended on its own, lower-cased, in a loop over the aliases
+			if va := variadicArgs(src); len(va) == 1 {
+				if d := describe(va[0]); strings.HasPrefix(d, "strings.ToLower(") && strings.Contains(d, "LocalhostAliases()") && reaches(c.(ssa.Instruction), c.(ssa.Instruction)) {
+					aliasLower = true
+				}
+			}
 			// every element of src was overwritten by its lower-cased form in a loop before the append
 			eachInstr(fn, func(ins ssa.Instruction) {
 				st, ok := ins.(*ssa.Store)
